@@ -1030,6 +1030,10 @@ def limit_error_not_swallowed(ctx: Ctx, rep: Report, rid: str = "R05.16") -> Non
                 n += 1
                 rep.instance()
                 earlier = [e for e in t.handlers[:hi] if "NetmaskValueError" in handler_classes(e) and isinstance(e.body[-1], ast.Raise)]
+                # ... or the skipping handler itself lets the limit error through first: `if isinstance(ex, NetmaskValueError): raise`
+                inner = [x for x in h_.body if isinstance(x, ast.If) and isinstance(x.test, ast.Call) and src(x.test.func) == "isinstance" and len(x.test.args) == 2 and h_.name and src(x.test.args[0]) == h_.name and "NetmaskValueError" in src(x.test.args[1]) and x.body and isinstance(x.body[-1], ast.Raise)]
+                if inner and h_.body.index(inner[0]) == 0:
+                    earlier = earlier or [h_]
                 if earlier:
                     rep.ok(f"{f.qualname}: except {', '.join(cs) or '<bare>'}", "the limit error is re-raised by an earlier handler", where=where(f, h_))
                 else:
@@ -1140,7 +1144,10 @@ def memo_filled_in_place(ctx: Ctx, rep: Report, rid: str = "R05.10") -> None:
                     names = {y.id for y in ast.walk(x.test) if isinstance(y, ast.Name)} | {y.attr for y in ast.walk(x.test) if isinstance(y, ast.Attribute) and src(y.value) == "self"}
                     for r in x.body:
                         if isinstance(r, ast.Return) and r.value is not None:
-                            rv = src(r.value)
+                            rvn = r.value
+                            if isinstance(rvn, ast.Call) and src(rvn.func) in ("list", "tuple", "sorted") and len(rvn.args) == 1:
+                                rvn = rvn.args[0]  # a copy of the memo is handed out: still answered from the memo
+                            rv = src(rvn)
                             if rv in aliases and rv in names:
                                 returned_when_set.add((rv, aliases[rv]))
                             elif rv.startswith("self.") and rv[5:] in names:
